@@ -31,6 +31,7 @@ class Report:
         self.explanation = ''
         self.rules = {}
         self.undecided = []
+        self.floor_fail = []
 
     def rule(self, rid, text):
         self.rules[rid] = text
@@ -54,10 +55,14 @@ class Report:
         self.counts[name] = n
 
     def floor(self, name, got, need):
+        """Fail closed: fewer instances than were counted by hand means the rule
+        no longer sees the code.  Reported as ANALYSIS-ERROR (exit 2) unless the
+        same run found a violation (a removed check is a violation, not an
+        analysis problem)."""
         self.counts[name] = got
         if got < need:
-            raise AnalysisError('%s: matched %d instance(s), hand-counted floor is %d '
-                                '(anchor moved or rule no longer sees the code)' % (name, got, need))
+            self.floor_fail.append('%s: matched %d instance(s), hand-counted floor is %d '
+                                   '(anchor moved or rule no longer sees the code)' % (name, got, need))
 
     def assume(self, text):
         if text not in self.assumptions:
@@ -163,6 +168,10 @@ def main():
             print('KNOWN-FINDING: property=%s %s [%s] %s' % (pid, v['key'], v['where'], known[v['key']]['what']))
         else:
             new.append(v)
+    if rep.floor_fail and not new:
+        print('ANALYSIS-ERROR property=%s %s' % (pid, '; '.join(rep.floor_fail)))
+        write_evidence(pid, tier, seed, rep, time.time() - t0, 0, hit, error='; '.join(rep.floor_fail))
+        sys.exit(2)
     print('%s: %d obligation(s) over %d distinct site(s); %d violated (%d known); counts %s' % (
         pid, len(rep.obs), len({(o['rule'], o['site']) for o in rep.obs}),
         len(rep.viol), len(hit), json.dumps(rep.counts, sort_keys=True)))
